@@ -82,6 +82,7 @@ Fixpoint flatV (g : cgoal) : Prop :=
   | CConde k gs => k = BFS /\ (fix all (l : list cgoal) : Prop := match l with [] => True | c :: r => flatV c /\ all r end) gs
   | CFresh k a => k = BFS /\ flatV a
   | CCall k _ _ => k = BFS
+  | CClosure k _ _ => k = BFS
   | _ => False
   end.
 
@@ -90,16 +91,24 @@ Variable defs : list (nat * def).
 (* RelV k r vals : the relation r holds of the argument values, with a derivation of height at most k *)
 Variable RelV : nat -> nat -> list term -> Prop.
 
-Inductive DenV (k : nat) (th : val) : cgoal -> Prop :=
-| V_succeed : DenV k th CSucceed
-| V_eq u v : app th u = app th v -> DenV k th (CEq u v)
-| V_diseq u v : app th u <> app th v -> DenV k th (CDiseq u v)
-| V_dom x d : (exists z, numv th x z /\ mem d z) -> DenV k th (CDom x d)
-| V_post c : choldG th c -> DenV k th (CPost c)
-| V_conj kd a b : DenV k th a -> DenV k th b -> DenV k th (CConj kd a b)
-| V_conde kd gs c : In c gs -> DenV k th c -> DenV k th (CConde kd gs)
-| V_fresh kd a : DenV k th a -> DenV k th (CFresh kd a)
-| V_call kd r args : RelV k r (map (app th) args) -> DenV k th (CCall kd r args).
+Inductive DenV : nat -> val -> cgoal -> Prop :=
+| V_succeed k th : DenV k th CSucceed
+| V_eq k th u v : app th u = app th v -> DenV k th (CEq u v)
+| V_diseq k th u v : app th u <> app th v -> DenV k th (CDiseq u v)
+| V_dom k th x d : (exists z, numv th x z /\ mem d z) -> DenV k th (CDom x d)
+| V_post k th c : choldG th c -> DenV k th (CPost c)
+| V_conj k th kd a b : DenV k th a -> DenV k th b -> DenV k th (CConj kd a b)
+| V_conde k th kd gs c : In c gs -> DenV k th c -> DenV k th (CConde kd gs)
+| V_fresh k th kd a : DenV k th a -> DenV k th (CFresh kd a)
+| V_call k th kd r args : RelV k r (map (app th) args) -> DenV k th (CCall kd r args)
+(* a closure { } block is elaborated when it is reached, at the counter of the state it meets: its reading is the
+   reading of that body, at EVERY counter m above its environment and for every valuation that gives the terms of
+   the environment the same values, for some choice of the variables drawn at m and after *)
+| V_closure k th kd rho gs :
+    (forall m th0, envb m rho -> (forall x t, In (x, t) rho -> app th0 t = app th t) ->
+       exists th', agree m th0 th' /\ DenV k th' (fst (elab defs efuel kd rho (GConj gs) m)) /\
+                   flatV (fst (elab defs efuel kd rho (GConj gs) m))) ->
+    DenV (S k) th (CClosure kd rho gs).
 
 Lemma map_app_agree n th th' args : agree n th th' -> Forall (tb n) args -> map (app th) args = map (app th') args.
 Proof. intros A. induction 1; cbn [map]; [reflexivity|]. rewrite IHForall, (proj1 (app_agree n th th' A) x H). reflexivity. Qed.
@@ -109,17 +118,17 @@ Proof. intros H Hin. unfold gb in H. apply (proj1 (gall_conde (Agb n) k gs)) in 
 
 Lemma DenV_agree k n th th' : agree n th th' -> forall g, DenV k th g -> gb n g -> DenV k th' g.
 Proof.
-  intros A. pose proof (app_agree n th th' A) as [AP _].
-  induction 1; intros B.
+  intros A g HD. revert th' A. induction HD; intros th' A B; pose proof (app_agree n th th' A) as [AP _].
   - constructor.
   - destruct B as [B1 B2]. constructor. rewrite <- (AP u B1), <- (AP v B2). exact H.
   - destruct B as [B1 B2]. constructor. rewrite <- (AP u B1), <- (AP v B2). exact H.
   - constructor. destruct H as [z [Hz Mz]]. exists z. split; [eapply numv_agree; eauto|exact Mz].
   - constructor. eapply choldG_agree; eauto.
-  - destruct B as [B1 B2]. constructor; auto.
-  - econstructor; [exact H|]. apply IHDenV. eapply gb_conde_in; eauto.
-  - constructor. apply IHDenV. exact B.
+  - destruct B as [B1 B2]. constructor; [apply IHHD1|apply IHHD2]; assumption.
+  - econstructor; [exact H|]. apply IHHD; [exact A|]. eapply gb_conde_in; eauto.
+  - constructor. apply IHHD; [exact A|exact B].
   - constructor. rewrite <- (map_app_agree n th th' args A B). exact H.
+  - constructor. intros m th0 He Hv. apply (H m th0 He). intros x t Hin. rewrite (Hv x t Hin). symmetry. apply AP. apply (B x t Hin).
 Qed.
 
 Lemma DenV_eq_inv k th u v : DenV k th (CEq u v) -> app th u = app th v. Proof. inversion 1; auto. Qed.
@@ -130,6 +139,11 @@ Lemma DenV_conj_inv k th kd a b : DenV k th (CConj kd a b) -> DenV k th a /\ Den
 Lemma DenV_conde_inv k th kd gs : DenV k th (CConde kd gs) -> exists c, In c gs /\ DenV k th c. Proof. inversion 1; eauto. Qed.
 Lemma DenV_fresh_inv k th kd a : DenV k th (CFresh kd a) -> DenV k th a. Proof. inversion 1; auto. Qed.
 Lemma DenV_call_inv k th kd r args : DenV k th (CCall kd r args) -> RelV k r (map (app th) args). Proof. inversion 1; auto. Qed.
+
+Lemma DenV_closure_inv k th kd rho gs : DenV k th (CClosure kd rho gs) -> exists k', k = S k' /\
+  forall m th0, envb m rho -> (forall x t, In (x, t) rho -> app th0 t = app th t) ->
+    exists th', agree m th0 th' /\ DenV k' th' (fst (elab defs efuel kd rho (GConj gs) m)) /\ flatV (fst (elab defs efuel kd rho (GConj gs) m)).
+Proof. inversion 1; subst. eexists. split; [reflexivity|assumption]. Qed.
 
 (* what completeness means for one goal started in one state *)
 Definition Claim (th : val) (g : cgoal) (st : state) : Prop :=
@@ -155,10 +169,13 @@ Qed.
 Definition call_ok (k : nat) : Prop := forall r args th st,
   RelV k r (map (app th) args) -> Good3 th st -> stb st -> Forall (tb (st_nextv st)) args -> Claim th (CCall BFS r args) st.
 
-Lemma completeV_step k : call_ok k ->
+Definition late_ok (k : nat) : Prop := forall c th st,
+  DenV k th c -> flatV c -> Good3 th st -> stb st -> gb (st_nextv st) c -> Claim th c st.
+
+Lemma completeV_step k : call_ok k -> (forall k', k = S k' -> late_ok k') ->
   forall g, flatV g -> forall th st, DenV k th g -> Good3 th st -> stb st -> gb (st_nextv st) g -> Claim th g st.
 Proof.
-  intros HCall. fix IH 1. intros g.
+  intros HCall HLate. fix IH 1. intros g.
   destruct g as [| |u v|u v|k0 g1 g2|k0 gs|k0 g|k0 rho gs|k0 r args|a b c|a b c|g|k0 rho x elems cs|k0 rho xs gs|x d|c|site|tag|u v|x| |x]; cbn [flatV]; intros Hf th st HD G B HB; try contradiction.
   - (* succeed *)
     exists st, th. split; [apply agree_refl|]. split; [exact G|]. split; [exact B|]. split; [lia|].
@@ -200,6 +217,16 @@ Proof.
     destruct (IH g Hf th st H0 G B HB) as [a1 [th1 [A1 [G1 [S1 [L1 I1]]]]]].
     exists a1, th1. split; [exact A1|]. split; [exact G1|]. split; [exact S1|]. split; [exact L1|].
     intros n. destruct n as [|n]; [apply ISe_err|]. cbn [start pause_k]. apply ISe_lazy, ILe_pause. apply I1.
+  - (* closure *) subst k0. apply DenV_closure_inv in HD as [k' [Ek P]].
+    destruct (P (st_nextv st) th HB (fun _ _ _ => eq_refl)) as [th' [A [HD' Hf']]].
+    pose proof (elab_scope defs efuel BFS rho (GConj gs) (st_nextv st) HB) as [L Bc].
+    destruct (elab defs efuel BFS rho (GConj gs) (st_nextv st)) as [c nv] eqn:Ee. cbn [fst snd] in *.
+    assert (G1 : Good3 th' (set_nextv st nv)).
+    { destruct G as [HM HG]. split; [|exact HG]. apply (MstG_agree (st_nextv st) th th' st A B) in HM. exact HM. }
+    destruct (HLate k' Ek c th' (set_nextv st nv) HD' Hf' G1 (stb_nextv st nv L B) Bc) as [a [th2 [A2 [G2 [S2 [L2 I2]]]]]].
+    cbn [set_nextv st_nextv] in A2, L2.
+    exists a, th2. split; [eapply agree_trans; eauto|]. split; [exact G2|]. split; [exact S2|]. split; [lia|].
+    intros n. destruct n as [|n]; [apply ISe_err|]. cbn [start]. rewrite Ee. apply I2.
   - (* call *) subst k0. apply DenV_call_inv in HD. apply HCall; assumption.
   - (* dom *) apply DenV_dom_inv in HD.
     apply (op_claim (fun th => exists z, numv th x z /\ mem d z) st (post_domain x d st)); auto.
@@ -227,22 +254,33 @@ Proof.
   inversion H; subst. destruct Hin as [E|Hin]; [inversion E; subst; assumption|apply (IH ar H3 x t Hin)].
 Qed.
 
-Theorem completeV_call : forall k, call_ok k.
+Lemma call_from_late k : late_ok k -> call_ok (S k).
 Proof.
-  induction k as [|k IHk]; intros r args th st HR G B HA; [exfalso; apply (RelV0 _ _ HR)|].
+  intros HL r args th st HR G B HA.
   destruct (H_unfold k r args th (st_nextv st) HR HA) as [d [c [nv [th' [Ed [Ee [A [HD Hf]]]]]]]].
   pose proof (elab_scope defs efuel BFS (combine (d_params d) args) (GConj [d_body d]) (st_nextv st) (envb_combine _ _ _ HA)) as [L Bc].
   rewrite Ee in L, Bc. cbn [fst snd] in L, Bc.
   assert (G1 : Good3 th' (set_nextv st nv)).
   { destruct G as [HM HG]. split; [|exact HG]. apply (MstG_agree (st_nextv st) th th' st A B) in HM. exact HM. }
-  destruct (completeV_step k IHk c Hf th' (set_nextv st nv) HD G1 (stb_nextv st nv L B) Bc) as [a [th2 [A2 [G2 [S2 [L2 I2]]]]]].
+  destruct (HL c th' (set_nextv st nv) HD Hf G1 (stb_nextv st nv L B) Bc) as [a [th2 [A2 [G2 [S2 [L2 I2]]]]]].
   cbn [set_nextv st_nextv] in A2, L2.
   exists a, th2. split; [eapply agree_trans; eauto|]. split; [exact G2|]. split; [exact S2|]. split; [lia|].
   intros n. destruct n as [|n]; [apply ISe_err|]. cbn [start]. rewrite Ed, Ee. apply I2.
 Qed.
 
+Theorem completeV_all : forall k, call_ok k /\ late_ok k.
+Proof.
+  induction k as [|k [IHc IHl]].
+  - assert (C0 : call_ok 0) by (intros r args th st HR; exfalso; apply (RelV0 _ _ HR)).
+    split; [exact C0|]. intros c th st HD Hf G B HB. apply (completeV_step 0 C0); auto. intros k' E. discriminate.
+  - pose proof (call_from_late k IHl) as C1. split; [exact C1|].
+    intros c th st HD Hf G B HB. apply (completeV_step (S k) C1); auto. intros k' E. inversion E; subst. exact IHl.
+Qed.
+Theorem completeV_call : forall k, call_ok k.
+Proof. intros k. apply completeV_all. Qed.
+
 Theorem completeV : forall k g th st, DenV k th g -> flatV g -> Good3 th st -> stb st -> gb (st_nextv st) g -> Claim th g st.
-Proof. intros k g th st HD Hf G B HB. apply (completeV_step k (completeV_call k) g Hf th st HD G B HB). Qed.
+Proof. intros k g th st HD Hf G B HB. apply (proj2 (completeV_all k) g th st HD Hf G B HB). Qed.
 
 Corollary completeV_delivered k g th st : DenV k th g -> flatV g -> MstG th st -> GoodS st -> stb st -> gb (st_nextv st) g ->
   exists a th' n, agree (st_nextv st) th th' /\ MstG th' a /\ emitsE (startq defs) n (startq defs g st) a.
